@@ -122,6 +122,7 @@ Definition raises (c : string) : option (list exc) :=
   | "<subscript 0>" => Some [EIndexError]
   | "<raise ValueError>" => Some [EValueError]
   | "<datetime subtraction>" => Some [ETypeError]   (* naive minus aware datetime *)
+  | "value.astimezone" | "value.astimezone(datetime.timezone.utc).replace"   (* _naive_utc *)
   | "<str method>" | "AASDataChecker" | "DataChecker" | "aasx.DictSupplementaryFileContainer"
   | "checker2.check" | "create_example" | "create_example_aas_binding" | "datetime.datetime"
   | "file_to_be_checked.close" | "file_to_be_checked.seek" | "io.TextIOWrapper" | "isinstance"
